@@ -563,14 +563,14 @@ theorem sched_cover : ∀ (sched : Sched) (σ : Sys) (t : T), SysOk σ t → ∀
         cases hi
         have hset : (σ.2.set j ((CoSt.pages p).resume σ.1).2.1)[j]? = some ((CoSt.pages p).resume σ.1).2.1 :=
           List.getElem?_set_self hjlt
-        obtain ⟨hy, hd⟩ := pagesResume_cover (σ.1.trie.size + p.prefixes.length + 2) σ.1 p g hnow hcov
-        by_cases ho : (pagesResume (σ.1.trie.size + p.prefixes.length + 2) σ.1 p).2 = .yielded
+        obtain ⟨hy, hd⟩ := pagesResume_cover ((σ.1.trie.size + 1) * (p.prefixes.length + 1)) σ.1 p g hnow hcov
+        by_cases ho : (pagesResume ((σ.1.trie.size + 1) * (p.prefixes.length + 1)) σ.1 p).2 = .yielded
         · rcases List.mem_cons.mp hm with e | hm
           · simp only [Prod.mk.injEq, true_and] at e
             rw [resume_pages_out, ho] at e
             cases e
           · have hset' : (σ.2.set j ((CoSt.pages p).resume σ.1).2.1)[j]? =
-                some (.pages (pagesResume (σ.1.trie.size + p.prefixes.length + 2) σ.1 p).1) := by
+                some (.pages (pagesResume ((σ.1.trie.size + 1) * (p.prefixes.length + 1)) σ.1 p).1) := by
               rw [hset, resume_pages_yielded σ.1 p ho]
             exact sched_cover rest _ t1 h1 j _ g hset' (hy ho) hthr l hm
         · rcases List.mem_cons.mp hm with e | hm
